@@ -36,7 +36,7 @@ CLAIMED = {
         note="Trusts rustc's MIR dump (dev profile, overflow checks on) as the semantics of the source, engines/mir2smt.py (validated on "
              "each run against the native build on seeded concrete vectors), z3, and the Python reference written in props/c04.py. "
              "float // % ** have no exact reference (panic freedom only); int/int true division reference is bounded to |operands| <= 2^53; "
-             "try_pow exponents 0..3 (quick) / 0..7 (thorough); Str/List/Dict/Type operands are outside.",
+             "try_pow exponents 0..3 and -1; Str/List/Dict/Type operands are outside.",
         design="3/C04"),
 }
 
